@@ -174,7 +174,9 @@ func (w *world) shapeClasses() []string {
 // mostly 1, sometimes shortly before the height's big-endian encoding rolls over a byte, two bytes or four bytes.
 var startHeights = []int64{1, 1, 1, 1, 215, 65500, 1<<32 - 40}
 
-func drawStart(t *rapid.T) int64 { return startHeights[rapid.IntRange(0, len(startHeights)-1).Draw(t, "start")] }
+func drawStart(t *rapid.T) int64 {
+	return startHeights[rapid.IntRange(0, len(startHeights)-1).Draw(t, "start")]
+}
 
 func newWorld() *world {
 	return &world{modules: map[string]int{}, msgOK: map[string]int{}, msgFail: map[string]int{}}
@@ -276,6 +278,15 @@ func (h *hist) nextBlock(t *rapid.T, maxTxs int) blockOp {
 		}
 	}
 	return op
+}
+
+// deadline of a coinswap order: mostly far away, sometimes a few seconds after the last block's time (the order is
+// then accepted or refused by block time alone, whatever a node's own clock says).
+func (h *hist) deadline(t *rapid.T, ctx sdk.Context) int64 {
+	if rapid.IntRange(0, 2).Draw(t, "neardeadline") != 0 {
+		return farFuture
+	}
+	return ctx.BlockTime().Unix() + int64(rapid.SampledFrom([]int{1, 2, 5, 30}).Draw(t, "deadlinein"))
 }
 
 // user draws an account: mostly one of the funded users, sometimes one of the two poor ones (1000 stake), so that
@@ -486,7 +497,7 @@ func (h *hist) nextTx(t *rapid.T) (txSpec, bool) {
 		a := rapid.IntRange(0, 6).Draw(t, "csop")
 		if pool == nil {
 			return txSpec{u, h.enc(&coinswaptypes.MsgAddLiquidity{MaxToken: sdk.NewInt64Coin(denom, int64(rapid.IntRange(1000, 2000000).Draw(t, "maxtok"))),
-				ExactStandardAmt: sdkmath.NewInt(int64(rapid.IntRange(1000, 1000000).Draw(t, "std"))), MinLiquidity: sdkmath.OneInt(), Deadline: farFuture, Sender: me})}, true
+				ExactStandardAmt: sdkmath.NewInt(int64(rapid.IntRange(1000, 1000000).Draw(t, "std"))), MinLiquidity: sdkmath.OneInt(), Deadline: h.deadline(t, ctx), Sender: me})}, true
 		}
 		switch a {
 		case 0, 1, 2:
@@ -503,14 +514,14 @@ func (h *hist) nextTx(t *rapid.T) (txSpec, bool) {
 					}
 				}
 				return txSpec{u, h.enc(&coinswaptypes.MsgSwapOrder{Input: coinswaptypes.Input{Address: me, Coin: sdk.NewInt64Coin(in, int64(rapid.IntRange(1, 5000).Draw(t, "in")))},
-					Output: coinswaptypes.Output{Address: rcpt, Coin: sdk.NewInt64Coin(out, 1)}, Deadline: farFuture, IsBuyOrder: false})}, true
+					Output: coinswaptypes.Output{Address: rcpt, Coin: sdk.NewInt64Coin(out, 1)}, Deadline: h.deadline(t, ctx), IsBuyOrder: false})}, true
 			}
 			in, out := "stake", denom
 			if rapid.Bool().Draw(t, "dir") {
 				in, out = denom, "stake"
 			}
 			return txSpec{u, h.enc(&coinswaptypes.MsgSwapOrder{Input: coinswaptypes.Input{Address: me, Coin: sdk.NewInt64Coin(in, 1<<40)},
-				Output: coinswaptypes.Output{Address: rcpt, Coin: sdk.NewInt64Coin(out, int64(rapid.IntRange(1, 500).Draw(t, "out")))}, Deadline: farFuture, IsBuyOrder: true})}, true
+				Output: coinswaptypes.Output{Address: rcpt, Coin: sdk.NewInt64Coin(out, int64(rapid.IntRange(1, 500).Draw(t, "out")))}, Deadline: h.deadline(t, ctx), IsBuyOrder: true})}, true
 		case 3:
 			bal := h.n.App.BankKeeper.GetBalance(ctx, h.n.Users[u].Addr, pool.LptDenom).Amount
 			if !bal.IsPositive() {
@@ -520,13 +531,13 @@ func (h *hist) nextTx(t *rapid.T) (txSpec, bool) {
 			if !amt.IsPositive() {
 				amt = bal
 			}
-			return txSpec{u, h.enc(&coinswaptypes.MsgRemoveLiquidity{WithdrawLiquidity: sdk.NewCoin(pool.LptDenom, amt), MinToken: sdkmath.OneInt(), MinStandardAmt: sdkmath.OneInt(), Deadline: farFuture, Sender: me})}, true
+			return txSpec{u, h.enc(&coinswaptypes.MsgRemoveLiquidity{WithdrawLiquidity: sdk.NewCoin(pool.LptDenom, amt), MinToken: sdkmath.OneInt(), MinStandardAmt: sdkmath.OneInt(), Deadline: h.deadline(t, ctx), Sender: me})}, true
 		case 4:
 			side := denom
 			if rapid.Bool().Draw(t, "side") {
 				side = "stake"
 			}
-			return txSpec{u, h.enc(&coinswaptypes.MsgAddUnilateralLiquidity{CounterpartyDenom: denom, ExactToken: sdk.NewInt64Coin(side, int64(rapid.IntRange(10, 5000).Draw(t, "amt"))), MinLiquidity: sdkmath.OneInt(), Deadline: farFuture, Sender: me})}, true
+			return txSpec{u, h.enc(&coinswaptypes.MsgAddUnilateralLiquidity{CounterpartyDenom: denom, ExactToken: sdk.NewInt64Coin(side, int64(rapid.IntRange(10, 5000).Draw(t, "amt"))), MinLiquidity: sdkmath.OneInt(), Deadline: h.deadline(t, ctx), Sender: me})}, true
 		case 5:
 			bal := h.n.App.BankKeeper.GetBalance(ctx, h.n.Users[u].Addr, pool.LptDenom).Amount
 			if !bal.IsPositive() {
@@ -540,9 +551,9 @@ func (h *hist) nextTx(t *rapid.T) (txSpec, bool) {
 			if !amt.IsPositive() {
 				amt = bal
 			}
-			return txSpec{u, h.enc(&coinswaptypes.MsgRemoveUnilateralLiquidity{CounterpartyDenom: denom, MinToken: sdk.NewInt64Coin(side, 1), ExactLiquidity: amt, Deadline: farFuture, Sender: me})}, true
+			return txSpec{u, h.enc(&coinswaptypes.MsgRemoveUnilateralLiquidity{CounterpartyDenom: denom, MinToken: sdk.NewInt64Coin(side, 1), ExactLiquidity: amt, Deadline: h.deadline(t, ctx), Sender: me})}, true
 		default:
-			return txSpec{u, h.enc(&coinswaptypes.MsgAddLiquidity{MaxToken: sdk.NewInt64Coin(denom, 1<<40), ExactStandardAmt: sdkmath.NewInt(int64(rapid.IntRange(1, 100000).Draw(t, "std"))), MinLiquidity: sdkmath.OneInt(), Deadline: farFuture, Sender: me})}, true
+			return txSpec{u, h.enc(&coinswaptypes.MsgAddLiquidity{MaxToken: sdk.NewInt64Coin(denom, 1<<40), ExactStandardAmt: sdkmath.NewInt(int64(rapid.IntRange(1, 100000).Draw(t, "std"))), MinLiquidity: sdkmath.OneInt(), Deadline: h.deadline(t, ctx), Sender: me})}, true
 		}
 	case "farm":
 		var fpools []farmtypes.FarmPool
